@@ -54,7 +54,10 @@ def run(ctx, res):
         res.holds("C18.R1", "-", "no-default-spelling", "%d string literals, none is a default delimiter or tag name" % nlit)
     # R2 integer literals
     nint = 0
+    called = {c_ for x in P.user_bodies() for c_, _ in P.callees(x)}
     for b in _fns_in(P, ("crate::tokenizer::", "crate::element_parser::")):
+        if b["def_path"] in getattr(P, "new_fns", set()) and b["def_path"] not in called:
+            continue        # a new private function that nothing calls (named only in a debug assertion): not part of the behaviour
         for n, par in T.walk(b["tree"]):
             if n.get("k") == "lit" and n.get("lk") == "int":
                 nint += 1
